@@ -28,6 +28,32 @@ pub fn forbid_grow(slot: usize, bytes: usize) {
     }
 }
 
+/// byte copy whose length is a constant in every branch (a `memcpy` of symbolic length is encoded
+/// with unbounded arrays by CBMC; the old capacity of an index vector is 1 or 2 elements)
+unsafe fn copy_const(src: *const u8, dst: *mut u8, n: usize) {
+    macro_rules! c {
+        ($k:literal) => {
+            if n == $k {
+                unsafe { std::ptr::copy_nonoverlapping(src, dst, $k) };
+                return;
+            }
+        };
+    }
+    c!(8);
+    c!(16);
+    c!(24);
+    c!(32);
+    c!(40);
+    c!(48);
+    c!(64);
+    c!(72);
+    c!(80);
+    c!(96);
+    c!(160);
+    kani::assert(n == 0, "VERIF-BOUND: old buffer size outside the allocator model");
+    kani::assume(n == 0);
+}
+
 /// Allocator model for code that genuinely grows small vectors (the one- to three-element index
 /// vectors of `next_indices*`, the `vec![0]` stacks of `iter()`): a fresh block of exactly the
 /// requested size (one of a few constants) that holds the old bytes; the old block is released.
@@ -48,7 +74,7 @@ pub fn grow_model(
             if ns == $k && os <= $k {
                 unsafe {
                     let blk = std::alloc::alloc(Layout::from_size_align_unchecked($k, 8));
-                    std::ptr::copy_nonoverlapping(ptr.as_ptr(), blk, os);
+                    copy_const(ptr.as_ptr(), blk, os);
                     std::alloc::dealloc(ptr.as_ptr(), old);
                     return Ok(NonNull::slice_from_raw_parts(NonNull::new_unchecked(blk), $k));
                 }
@@ -58,7 +84,9 @@ pub fn grow_model(
     exact!(32);
     exact!(64);
     exact!(96);
+    exact!(160);
     exact!(192);
+    exact!(320);
     kani::assert(false, "VERIF-BOUND: Vec growth beyond the allocator model");
     kani::assume(false);
     Err(AllocError)
@@ -126,3 +154,26 @@ pub unsafe fn append_elements_model<T, A: std::alloc::Allocator>(v: &mut Vec<T, 
         i += 1;
     }
 }
+
+/// `Vec::insert` shifts the tail with a `memmove` of symbolic length (unbounded arrays in CBMC).
+/// Same effect, element by element (`next_indices_first_*` insert into vectors of one or two entries).
+pub fn insert_model<T, A: std::alloc::Allocator>(v: &mut Vec<T, A>, index: usize, element: T) {
+    let len = v.len();
+    assert!(index <= len, "insertion index out of bounds");
+    if len == v.capacity() {
+        v.reserve(1);
+    }
+    unsafe {
+        let p = v.as_mut_ptr();
+        let mut i = len;
+        while i > index {
+            std::ptr::write(p.add(i), std::ptr::read(p.add(i - 1)));
+            i -= 1;
+        }
+        std::ptr::write(p.add(index), element);
+        v.set_len(len + 1);
+    }
+}
+
+/// release without bookkeeping (experiments / harnesses where deallocation is not the subject)
+pub fn dealloc_noop(_ptr: NonNull<u8>, _layout: Layout) {}
